@@ -198,7 +198,7 @@ def run(chk):
             if kind == "std":
                 fid, ext = rng.randrange(2 ** 11), False
             else:
-                base = rng.choice([0x18FEF100, 0x0CEF1200, 0x18EA00FE, 0x1CECFF00, rng.randrange(2 ** 29)])
+                base = rng.choice([0x18FEF100, 0x0CEF1200, 0x18EA00FE, 0x1CECFF00, 0x000000FE, 0x0000030B, rng.randrange(2 ** 11), rng.randrange(2 ** 29)])
                 if rng.random() < 0.5 and frames_desc:
                     # same PGN as an earlier extended frame, other SA/prio
                     prev = [d for d in frames_desc if d[2]]
@@ -226,11 +226,27 @@ def run(chk):
                 probes.append(((fid & 0x1FFFFF00) | rng.randrange(256), True))             # other source
                 probes.append(((fid & 0x1FFF00FF) | (rng.randrange(256) << 8), True))      # other DA / group extension
                 probes.append((fid ^ (1 << 16), True))                                     # other PF
+                probes.append(((fid & 0x00FFFFFF) & ~0xFF00 | (rng.randrange(8) << 8), True))        # priority 0, small DA/GE
                 probes.append((fid & 0x7FF, False))
         probes.append((rng.randrange(2 ** 29), True))
         probes.append((rng.randrange(2 ** 11), False))
         for pid, pext in probes:
             got = probe(db, frames_desc, pid, pext)
+            # the python-can entry point must select the same frame (a stand-in for can.Message: python-can is not installed)
+            if 0 <= pid < (2 ** 29 if pext else 2 ** 11):
+                class _Msg(object):
+                    pass
+                m = _Msg()
+                m.arbitration_id, m.is_extended_id, m.data = pid, pext, bytes(8)
+                try:
+                    r2 = db.decode_pycan(m)
+                    got2 = ("empty",) if r2 == {} else ("frame", int(next(iter(r2.keys()))[1:]))
+                except Exception as e:
+                    got2 = ("crash", type(e).__name__)
+                chk.count("decode_pycan")
+                if got2 != got:
+                    chk.violation("decode-pycan-differs", "CanMatrix.decode_pycan selects another frame than CanMatrix.decode for the same identifier",
+                                  dict(frames=frames_desc, probe=(pid, pext)), got, got2)
             # oracle
             if not pext:
                 exp = ("empty",)
